@@ -23,6 +23,7 @@ def handle (line : String) : String :=
   | "slv" :: args => Andes.SolverCache.handleSlv args | "pfs" :: args => Andes.SolverCache.handlePfs args | "tdi" :: args => Andes.SolverCache.handleTdi args
   | "island" :: args => Andes.Island.handleIsland args
   | "ev" :: args => Andes.Expr.handleEv args
+  | "evd" :: args => Andes.Expr.handleEvd args
   | "reg" :: args => Andes.Registry.handleReg args
   | "uniq" :: args => Andes.Registry.handleUniq args
   | "cfg" :: args => Andes.Config.handle args
